@@ -280,7 +280,7 @@ class Analysis:
                         for c in m.by_src.get(sid, []):
                             if not m.has_data(c) or c["se"] != eid or c["sa"] != attr:
                                 continue
-                            if m.is_trigger(c["dst"], c["da"]):
+                            if m.is_trigger(c["dst"], c["da"], c["de"]):
                                 due = m.due(c, outlabel)
                                 if due[0] < until:
                                     dd = demand(c["dst"], due, (sid, L))
@@ -411,7 +411,7 @@ class Analysis:
             P = c["src"]
             slot = (c["de"], c["da"], f"{P}.{c['se']}")
             plist = prods.get((P, c["se"], c["sa"]), [])
-            if m.is_persistent(P, c["sa"]):
+            if m.is_persistent(P, c["sa"], c["se"]):
                 best = None
                 for p in plist:
                     due = m.due(c, p.outlabel)
